@@ -377,13 +377,22 @@ func TestVF_C15(t *testing.T) {
 		}})
 	}
 	// descriptor use must not grow with the entry count
-	for i, entries := range []int{50, 200, 800} {
+	for i, entries := range []int{50, 200, 800, -50, -200, -800} {
 		i, entries := i, entries
-		cases = append(cases, vfCase{ID: fmt.Sprintf("fd-%d", entries), Run: func(c *vfCtx) {
+		shape := "few-dirs"
+		if entries < 0 {
+			entries = -entries
+			shape = "dir-per-file" // every file is followed by a directory entry in scan order
+		}
+		cases = append(cases, vfCase{ID: fmt.Sprintf("fd-%s-%d", shape, entries), Run: func(c *vfCtx) {
 			r := c.R
 			src := filepath.Join(c.Dir, "src")
 			specs := []vfFileSpec{{Rel: "many", Dir: true}}
 			for k := 0; k < entries; k++ {
+				if shape == "dir-per-file" {
+					specs = append(specs, vfFileSpec{Rel: fmt.Sprintf("many/d%04d/f", k), Size: 1 + k%5, Content: "rand"})
+					continue
+				}
 				specs = append(specs, vfFileSpec{Rel: fmt.Sprintf("many/d%d/f%04d", k%7, k), Size: 1 + k%5, Content: "rand"})
 			}
 			if err := vfWriteTree(src, specs, r); err != nil {
@@ -428,8 +437,8 @@ func TestVF_C15(t *testing.T) {
 				}
 			}
 			w.Close()
-			c.Obs(fmt.Sprintf("fd_peak_reader_%d_entries", entries), int64(peakR))
-			c.Obs(fmt.Sprintf("fd_peak_writer_%d_entries", entries), int64(peakW))
+			c.Obs(fmt.Sprintf("fd_peak_reader_%s_%d_entries", shape, entries), int64(peakR))
+			c.Obs(fmt.Sprintf("fd_peak_writer_%s_%d_entries", shape, entries), int64(peakW))
 			if peakR > 8 {
 				c.Viol("c15-fd-grow-reader", "archive reader held %d descriptors over the baseline while producing %d entries", peakR, entries)
 				return
@@ -438,7 +447,7 @@ func TestVF_C15(t *testing.T) {
 				c.Viol("c15-fd-grow-writer", "archive writer held %d descriptors over the baseline while consuming %d entries (GC disabled): descriptors in use grow with the entry count", peakW, entries)
 				return
 			}
-			c.Nontrivial(fmt.Sprintf("fd entries=%d", entries))
+			c.Nontrivial(fmt.Sprintf("fd %s entries=%d", shape, entries))
 			_ = i
 			c.Sample(map[string]interface{}{"kind": "descriptor use", "entries": entries, "peak_over_baseline_reader": peakR, "peak_over_baseline_writer": peakW})
 		}})
@@ -449,7 +458,11 @@ func TestVF_C15(t *testing.T) {
 		src := filepath.Join(c.Dir, "src")
 		specs := []vfFileSpec{{Rel: "many", Dir: true}}
 		for k := 0; k < 600; k++ {
-			specs = append(specs, vfFileSpec{Rel: fmt.Sprintf("many/f%04d", k), Size: 3, Content: "rand"})
+			if k%2 == 0 {
+				specs = append(specs, vfFileSpec{Rel: fmt.Sprintf("many/f%04d", k), Size: 3, Content: "rand"})
+			} else {
+				specs = append(specs, vfFileSpec{Rel: fmt.Sprintf("many/d%04d/f", k), Size: 3, Content: "rand"})
+			}
 		}
 		if err := vfWriteTree(src, specs, r); err != nil {
 			c.Inconc("%v", err)
@@ -467,6 +480,10 @@ func TestVF_C15(t *testing.T) {
 		}
 		defer syscall.Setrlimit(syscall.RLIMIT_NOFILE, &lim)
 		nameJSON, rd, _, err := vfArchiveProduce(filepath.Join(src, "many"))
+		if err != nil && strings.Contains(err.Error(), "too many open files") {
+			c.Viol("c15-nofile-scan", "600-entry tree (300 sub-directories) with ~40 spare descriptors (GC disabled): scanning the tree failed: %v", vfClip(err.Error()))
+			return
+		}
 		if err != nil || rd == nil {
 			c.Inconc("produce: %v", err)
 			return
